@@ -90,6 +90,16 @@ def check_scan(rep, rule, inst, file, line, it, st, seq, S, first_index, init_wa
     return probs
 
 
+def strip_empty_split(seq, S):
+    """`if segments.is_empty() {empty} else {X}` -> (True if the empty arm is the empty vector else False, X); (None, seq) when there is no split"""
+    empty_c = ('icmp', 'eq', ('len', S), ('ic', 0))
+    ne_c = ('icmp', 'ne', ('len', S), ('ic', 0))
+    if isinstance(seq, SelV) and seq.cond in (empty_c, ne_c):
+        e_arm, n_arm = (seq.a, seq.b) if seq.cond == empty_c else (seq.b, seq.a)
+        return e_arm == SeqLit(()), n_arm
+    return None, seq
+
+
 def check(cx):
     rep = Report('C11')
     T = param('T')
@@ -109,7 +119,22 @@ def check(cx):
             if not (isinstance(r, Struct) and r.path == 'piecewise::Piecewise' and isinstance(r.fields[0], VecV)):
                 rep.ob('thread', inst, False, 'result is not a Piecewise', fn=inst, file=file, line=line)
                 return
-            probs = check_scan(rep, 'thread', inst, file, line, it, st, r.fields[0].seq, S, 0, (sym('knot0.x'), sym('knot0.y')), 'integral')
+            k0 = (sym('knot0.x'), sym('knot0.y'))
+            split, seq = strip_empty_split(r.fields[0].seq, S)
+            if isinstance(seq, SeqConcat) and len(seq.parts) == 2 and isinstance(seq.parts[0], SeqLit) and len(seq.parts[0].elems) == 1:
+                # the first step written out: [S₀.integral(knot0)] ++ scan(S[1..], (end₀, F₀(end₀))) — the same recurrence unrolled once
+                probs = [] if split is True else ['the first piece is taken unconditionally but there is no empty/non-empty split' if split is None
+                                                 else 'empty input does not give an empty result']
+                first = seq.parts[0].elems[0]
+                e0 = ('elem', S, ('ic', 0), 'end')
+                INT0 = integral_of(('elem', S, ('ic', 0), 'poly'), k0[0], k0[1])
+                if it.abstract(st, first) != ('struct', 'piecewise::Segment', e0, INT0):
+                    probs.append('first piece is %s, expected segments[0].integral(knot0)' % (it.abstract(st, first),))
+                init = (e0, ('uf', 'poly::Evaluate::evaluate', IO, INT0, e0))
+                probs += check_scan(rep, 'thread', inst, file, line, it, st, seq.parts[1], S, 1, init, 'integral tail')
+            else:
+                probs = [] if split in (None, True) else ['empty input does not give an empty result']
+                probs += check_scan(rep, 'thread', inst, file, line, it, st, seq, S, 0, k0, 'integral')
             allp = [p for p in probs if 'scans segments' in p]
             rest = [p for p in probs if p not in allp]
             rep.ob('all', inst, not allp, '; '.join(allp) or 'scan over the whole vector, in order', fn=inst, file=file, line=line,
